@@ -299,7 +299,7 @@ HEADER = ("From Coq Require Import List Arith ZArith QArith Qcanon Bool. Import 
           "Require Import NV.C02.Model NV.C02.Exec.\nLocal Open Scope nat_scope.\n")
 
 
-def eval_cases_local(d, name, header, checks, timeout=900, shard=75, jobs=5):
+def eval_cases_local(d, name, header, checks, timeout=900, shard=200, jobs=5):
     """like common.eval_cases, but in a per-process scratch directory"""
     os.makedirs(d, exist_ok=True)
     files = []
@@ -355,8 +355,8 @@ class C02(C.Check):
 
     # -- case generation ----------------------------------------------------------------------
     def plan(self, ctx):
-        per_m = 30 if ctx.quick else 150
-        per_o = 12 if ctx.quick else 60
+        per_m = 26 if ctx.quick else 150
+        per_o = 10 if ctx.quick else 60
         out = []
         for kl in O.MODELLED:
             out += [(kl, per_m)]
